@@ -435,4 +435,90 @@ def execute(item):
             want.pop()
         if list(args) != want:
             bad("none-trimming", f"inputs {sent_in} forwarded as {args}, expected {want}")
-    return {"status": "viol" if viols else "ok", "outcome": shape[0], "viols": viols, "nkey": nkey}
+    counts = {}
+    if shape[0] in ("none", "omit"):
+        # the same call shape through the REAL eager evaluators up to the point where the one-node model and the feeds
+        # are handed to the runtime (captured there): every supplied input must sit at its own formal position, every
+        # omitted one must be "" (or trimmed when trailing)
+        for ev_name in ("ort", "reference"):
+            kind, detail = _eager_model_check(meth, expected, [x is not None for x in sent_in], len(var_args), kws, ev_name)
+            counts[f"eager-model:{ev_name}:{kind.split(':')[0]}"] = 1
+            if kind == "viol":
+                bad("eager-node-inputs", f"{ev_name} evaluator, omitted={shape[1] if shape[0] == 'none' else []}: {detail}")
+    return {"status": "viol" if viols else "ok", "outcome": shape[0], "viols": viols, "nkey": nkey, "counts": counts}
+
+
+class _Captured(RuntimeError):
+    pass
+
+
+_DUMMY_ATTR = {onnx.AttributeProto.INT: 1, onnx.AttributeProto.FLOAT: 1.0, onnx.AttributeProto.STRING: "a",
+               onnx.AttributeProto.INTS: [1], onnx.AttributeProto.FLOATS: [1.0], onnx.AttributeProto.STRINGS: ["a"]}
+
+
+def _eager_model_check(meth, schema, given, nvar, kws, ev_name):
+    """-> ("ok"|"refused:<why>"|"viol", detail)"""
+    import numpy as np
+    import onnxruntime as ort
+    import onnx.reference
+    from onnxscript._internal import evaluator
+    args = [np.full((1,), float(i + 1), dtype=np.float32) if g else None for i, g in enumerate(given)]
+    args += [np.full((1,), float(101 + j), dtype=np.float32) for j in range(nvar)]
+    kwargs = {}
+    for p in kws:
+        if p.default is inspect.Parameter.empty:
+            t = schema.attributes[p.name].type
+            if t not in _DUMMY_ATTR:
+                return "refused:attr-type", None
+            kwargs[p.name] = _DUMMY_ATTR[t]
+    cap = {}
+
+    class FakeSession:
+        def __init__(self, model, *a, **k):
+            cap["model"] = model
+
+        def run(self, outs, feeds, *a, **k):
+            cap["feeds"] = dict(feeds)
+            raise _Captured("captured")
+
+    ev = evaluator.ort_evaluator if ev_name == "ort" else evaluator.OnnxReferenceRuntimeEvaluator()
+    old_s, old_r = ort.InferenceSession, onnx.reference.ReferenceEvaluator
+    ort.InferenceSession = FakeSession
+    onnx.reference.ReferenceEvaluator = FakeSession
+    try:
+        with evaluator.default_as(ev):
+            try:
+                meth(*args, **kwargs)
+            except Exception as e:  # noqa: BLE001
+                if "feeds" not in cap:
+                    return f"refused:{type(e).__name__}", None
+    finally:
+        ort.InferenceSession, onnx.reference.ReferenceEvaluator = old_s, old_r
+    if "feeds" not in cap:
+        return "refused:no-run", None
+    m = cap["model"]
+    if isinstance(m, (bytes, bytearray)):
+        m = onnx.ModelProto.FromString(bytes(m))
+    if len(m.graph.node) != 1:
+        return "viol", f"{len(m.graph.node)} nodes in the eager model"
+    ins = list(m.graph.node[0].input)
+    feeds = cap["feeds"]
+    used = set()
+    for i, a in enumerate(args):
+        nm = ins[i] if i < len(ins) else ""
+        if a is None:
+            if nm != "":
+                return "viol", f"omitted input {i} is wired to '{nm}' (node inputs {ins})"
+            continue
+        if nm == "":
+            return "viol", f"supplied input {i} is missing from the node (node inputs {ins})"
+        if nm in used:
+            return "viol", f"input name '{nm}' used for two positions (node inputs {ins})"
+        used.add(nm)
+        got = feeds.get(nm)
+        got = None if got is None else np.asarray(getattr(got, "value", got))
+        if got is None or got.shape != a.shape or float(got.ravel()[0]) != float(a.ravel()[0]):
+            return "viol", f"formal position {i} is fed {None if got is None else got.tolist()} instead of {a.tolist()} (node inputs {ins})"
+    if any(x != "" for x in ins[len(args):]):
+        return "viol", f"extra node inputs {ins[len(args):]}"
+    return "ok", None
